@@ -151,7 +151,10 @@ def run_case(case, g, tier, res):
                 sol.append((Sv, av, pv, And(*cons)))
             same = And(sol[0][0] == sol[1][0], *[sol[0][1][i] == sol[1][1][i] for i in range(k)], *[sol[0][2][i] == sol[1][2][i] for i in range(k)])
             c.prove(Implies(And(sol[0][3], sol[1][3]), same), "sound:unique solution", detail("an under-determined system is reported generable"))
-        else:
+        if P and outcome in ("generable", "not generable"):
+            # written percentages above 100 % are an error, not a reason to be merely 'not generable'
+            c.prove(sumP <= 100 + 1e-3, "over-100 % specification is rejected", detail(f"percentages above 100 % are answered with '{outcome}' instead of an error"))
+        if not ok:
             # documented determined forms with consistent totals must be generable
             form = False
             if nU == 0 and nP == 0 and S0 is None:
@@ -277,6 +280,9 @@ def replay(rp, gb):
         except Exception as e:
             ok, outcome = None, f"raised {type(e).__name__}"
         k = len(kinds)
+        if ok and "above 100 %" in rp["label"]:
+            sumP0 = sum(w for w, kd in zip(written, kinds) if kd == PCT)
+            return sumP0 > 100 + 1e-3, f"outcome={outcome} for written percentages summing to {sumP0}"
         if ok:
             bad = []
             mix = [m.mixture for m in mols]
@@ -311,6 +317,8 @@ def replay(rp, gb):
         sumP = sum(w for w, kd in zip(written, kinds) if kd == PCT)
         sumA = sum(w for w, kd in zip(written, kinds) if kd == ABS)
         s0 = rp["s0"]
+        if "above 100 %" in rp["label"]:
+            return (ok is not None) and sumP > 100 + 1e-3, f"outcome={outcome} for written percentages summing to {sumP}"
         form = False
         if nU == 0 and nP == 0 and s0 is None:
             form = True
